@@ -1,14 +1,27 @@
 ENGINES = [
- {"name": "pyvc", "path": "/verif/pyvc", "serves_properties": ["C03"],
+ {"name": "pyvc", "path": "/verif/pyvc", "serves_properties": ["C01", "C03"],
   "kind_free_text": "own verification-condition generator: symbolic execution of the real function ASTs (re-read from /repo every run) against sidecar contracts (/verif/contracts), obligations discharged by z3 5.1 (cvc5 on unknown), validated finite-shape counter-models for refutation"},
+ {"name": "bounded", "path": "/verif/bounded", "serves_properties": ["C01","C02","C03","C04","C05","C09","C10","C14","C16","C19"],
+  "kind_free_text": "bounded stand-ins: the property's contract evaluated at run time on the real code over enumerated small scopes (deal/icontract/plain wrappers), never counted as proved"},
 ]
 NOTES = ("Contract-based deductive verification; see DESIGN.md. Exit codes: 0 held, 1 violation, 2 undecided, 3 checker error. "
          "Bounded stand-ins are labelled bounded in the evidence and never counted in obligations/discharged.")
 _PENDING = "check not built yet in this round (work in progress; see DESIGN.md section 5 for the planned contracts)"
+_B = "bounded contract check on the real code (small-scope enumeration + run-time contract; labelled bounded, never counted as proved)"
+_BN = ("Bounded stand-in only so far: the property's contract (pre/postconditions from the statement, independent oracle) is "
+       "evaluated at run time on the real code over the stated scope; nothing is claimed beyond that scope. "
+       "Known findings (genuine defects not repaired) are listed in known_findings.jsonl with their witnesses.")
 CHECKS = [
+ {"id": "C01", "category": "proof", "design_ref": "5/C01",
+  "text": "Model.__call__ (both coefficient-accumulation loops, declaration order, 0 for untouched variables) and every calculate/calculate_inpl are proved for all models and states against the contract of _get_args (ghost-sum loop invariants); all entry points are additionally compared with an independent evaluator on enumerated models (bounded).",
+  "note": "Assumes the contracts of _get_args/_create_cache (exercised by the bounded part, verified under C13 where in reach), floats as reals with uninterpreted products, pure rate laws, definitional axioms of fold/map. pandas-based entry points are covered by the bounded part only.",
+  "technique": "contract-based deductive verification (pyvc VC generation from the real AST + z3) + bounded contract check"},
  {"id": "C03", "category": "proof", "design_ref": "5/C03",
-  "text": "Every contracted public mutator of Model is proved, for all models and arguments, to preserve the name-space/record invariant Wf, to have its whole-view postcondition, to change nothing when it rejects an edit and to leave no non-None cache after changing content; history quantifier discharged by induction over Wf.",
-  "note": "Assumes: typing annotations of inputs, dict representation invariant, floats as reals, rate laws pure. Mutators with loops/comprehensions not yet under contract are listed in the evidence (mutators_without_verified_contract); cache freshness relies on the syntactic obligation that only _create_cache stores a non-None cache.",
-  "technique": "contract-based deductive verification (pyvc VC generation from the real AST + z3)"},
+  "text": "Every contracted public mutator of Model is proved, for all models and arguments, to preserve the name-space/record invariant Wf, to have its whole-view postcondition, to change nothing when it rejects an edit and to leave no non-None cache after changing content; history quantifier discharged by induction over Wf. Bounded: all depth-2 histories over 32 operations on the real Model.",
+  "note": "Assumes: typing annotations of inputs, dict representation invariant, floats as reals, rate laws pure. Mutators with loops/comprehensions not yet under contract are listed in the evidence (mutators_without_verified_contract) and covered by the bounded part only; cache freshness relies on the syntactic obligation that only _create_cache stores a non-None cache.",
+  "technique": "contract-based deductive verification (pyvc VC generation from the real AST + z3) + bounded contract check"},
 ]
+for _p, _ref in [("C02","5/C02"),("C04","5/C04"),("C05","5/C05"),("C09","5/C09"),("C10","5/C10"),("C14","5/C14"),("C16","5/C16"),("C19","5/C19")]:
+    CHECKS.append({"id": _p, "category": "exploration", "design_ref": _ref, "text": _BN, "note": "Run-time contract on the real code; oracle independent of the code under test (closed forms / recomputation from the property statement); tolerances stated in the evidence.", "technique": _B, "engine": "bounded"})
+CHECKS.sort(key=lambda c: c["id"])
 NOT_APPLICABLE = [{"property_id": f"C{i:02d}", "reason": _PENDING} for i in range(1, 21) if f"C{i:02d}" not in {c["id"] for c in CHECKS}]
